@@ -6,8 +6,8 @@ From ClapModel Require Import Base.Bytes Base.Utf8.
 From ClapModel Require Import Parse.Cmd Parse.Build Parse.Valid Parse.Matcher Parse.Errors Parse.Parser.
 From ClapModel Require Import Value.PossibleValues.
 From ClapModel Require Import Derive.DeriveModel Derive.DeriveProofs.
-From ClapModel Require Import ParseProofs.Actions ParseProofs.Unparse ParseProofs.UnparseTop ParseProofs.UnparseTree.
-From ClapModel Require Import Derive.DeriveCmd Derive.DeriveArgs Derive.DeriveParse Derive.DeriveUpdate Derive.DeriveParseEx.
+From ClapModel Require Import ParseProofs.Actions ParseProofs.ActionsLoop ParseProofs.Unparse ParseProofs.UnparseTop ParseProofs.UnparseTree.
+From ClapModel Require Import Derive.DeriveCmd Derive.DeriveArgs Derive.DeriveParse Derive.DeriveUpdate Derive.DeriveAccept Derive.DeriveParseEx.
 From Coq Require Import ZArith List.
 Import ListNotations.
 Open Scope N_scope.
@@ -269,3 +269,41 @@ Theorem C15_roundtrip_parse_outcomes : forall d bin vs argv,
   end.
 Proof. exact roundtrip_parse_outcomes. Qed.
 Print Assumptions C15_roundtrip_parse_outcomes.
+
+(** ONE STORING OCCURRENCE SUCCEEDS (any command, any argument): when the value count is accepted, the values pass the
+    argument's value parser and a Set-like argument is not yet present, [react] stores the occurrence. *)
+Theorem C15_react_succeeds : forall c idn a raw ti st vals vp,
+  wf_m (mt st) -> ~ In (a_id a) (groups_for_arg c (a_id a)) ->
+  verify_num_args c a raw st = ROk tt -> occ_values c a raw ti = Some vals -> a_vp a = Some vp ->
+  Forall (fun v => vp_parse vp v = None) (stored_vals a vals) ->
+  match a_get_action a with
+  | ASet | ASetTrue | ASetFalse => mt_contains (mt st) (a_id a) = false
+  | AAppend => True
+  | _ => False
+  end ->
+  exists st', react_core c idn SCmdLine a raw ti st = ROk (st', PRValuesDone).
+Proof. exact react_core_ok. Qed.
+Print Assumptions C15_react_succeeds.
+
+(** THE COMMAND-LINE PHASE ACCEPTS THE PRINTED LINE (partial towards [parse (print v) = Ok v]): if every printed group
+    passes the generated argument's own value-count check and value parser ([accepted_nodes]: the parser's own
+    [verify_num_args] / [vp_parse] on the built argument), every [react] of the token loop succeeds, and the parse of the
+    printed line is exactly the environment / default / validation phases applied to the state holding the printed groups.
+    MISSING for the full statement: those three phases succeed (defaults pass their value parser; validator completeness for a
+    command without relations) -- checked on every dround case. *)
+Theorem C15_print_cmdline_accepted_partial : forall d bin vs argv fuel,
+  opt_struct d -> printable (d_nodes d) vs -> accepted_nodes d bin (d_nodes d) vs ->
+  valid (with_bin (derive_cmd d) bin) = true -> print d vs = Some argv ->
+  exists st1, react_all (built d bin) (nodes_occs (d_nodes d) vs) ps_new = ROk st1
+              /\ get_matches_with (S fuel) (built d bin) argv ps_new = post_loop (built d bin) st1.
+Proof. exact print_cmdline_accepted. Qed.
+Print Assumptions C15_print_cmdline_accepted_partial.
+
+Theorem C15_print_cmdline_accepted_nonvacuous :
+  opt_struct ParseEx.d /\ printable (d_nodes ParseEx.d) ParseEx.v /\ accepted_nodes ParseEx.d b_prog (d_nodes ParseEx.d) ParseEx.v
+  /\ valid (with_bin (derive_cmd ParseEx.d) b_prog) = true /\ print ParseEx.d ParseEx.v = Some ParseEx.argv.
+Proof.
+  split; [exact ParseEx.ex_struct|]. split; [exact ParseEx.ex_printable|]. split; [exact ParseEx.ex_accepted|].
+  split; [exact ParseEx.ex_valid|exact ParseEx.ex_print].
+Qed.
+Print Assumptions C15_print_cmdline_accepted_nonvacuous.
